@@ -13,6 +13,7 @@ DEST = ['none', 'file', 'dir_empty', 'tree', 'link_file', 'link_dir',
 def config(tier):
     return {
         'level': 'exploration',
+        'cold_sample': 3 if tier == 'quick' else 20,
         'real_sample': 4 if tier == 'quick' else 30,
         'cases': 3500 if tier == 'quick' else 50000,
         'budget_s': 45 if tier == 'quick' else 560,
